@@ -545,6 +545,17 @@ Proof.
     - intros Hlt. lia. }
   destruct G as [_ G]. apply G; [exact Hm|exact Hch].
 Qed.
+Theorem vpass2_row_length a m : a <= L -> m <= L ->
+  length (nth m (nth a (vpass2 K L pa pcw twop w v0) []) []) = n.
+Proof.
+  intros Ha Hm. unfold vpass2.
+  assert (G : Pv (0 + a) (nth a (iter2 (vstep2 K L pa pcw twop w) L 0 v0 []) [])).
+  { apply (iter2_spec (vstep2 K L pa pcw twop w) Pv); [| | |lia].
+    - intros j x y. apply vstep2_inv.
+    - split; [exact Hlen0|]. intros m' ch' _ _. reflexivity.
+    - intros Hlt. lia. }
+  destruct G as [G _]. now apply G.
+Qed.
 End VPassList.
 
 (* ---- cubes ---- *)
@@ -552,6 +563,97 @@ Lemma cget_mk3 (L : nat) (f : nat -> nat -> nat -> F) x y z : x <= L -> y <= L -
   cget K (mk (S L) (fun x => mk (S L) (fun y => mk (S L) (fun z => f x y z)))) x y z = f x y z.
 Proof. intros Hx Hy Hz. unfold cget. rewrite nth_mk by lia. rewrite nth_mk by lia.
   rewrite nth_mk by lia. reflexivity. Qed.
+
+(* concatenation of k rows of equal length n: entry i * n + j *)
+Lemma concat_uniform_length {A} (rows : list (list A)) n :
+  (forall r, In r rows -> length r = n) -> length (concat rows) = (length rows * n)%nat.
+Proof. induction rows as [|r rows IH]; intros H; cbn [concat length]; [reflexivity|].
+  rewrite app_length, (H r) by (now left). rewrite IH by (intros; apply H; now right). lia. Qed.
+Lemma nth_concat_uniform {A} (rows : list (list A)) n i j d :
+  (forall r, In r rows -> length r = n) -> i < length rows -> j < n ->
+  nth (i * n + j) (concat rows) d = nth j (nth i rows []) d.
+Proof.
+  revert i. induction rows as [|r rows IH]; intros i H Hi Hj; cbn [length] in Hi; [lia|].
+  cbn [concat]. assert (Hr : length r = n) by (apply H; now left).
+  destruct i as [|i].
+  - cbn [Nat.mul Nat.add nth]. apply app_nth1. lia.
+  - cbn [nth]. rewrite app_nth2 by (rewrite Hr; cbn [Nat.mul]; lia).
+    replace (S i * n + j - length r)%nat with (i * n + j)%nat by (rewrite Hr; cbn [Nat.mul]; lia).
+    apply IH; [intros; apply H; now right|lia|exact Hj].
+Qed.
+Lemma in_mk {A} k (g : nat -> A) x : In x (mk k g) -> exists i, i < k /\ x = g i.
+Proof. unfold mk. intros H. apply in_map_iff in H. destruct H as [i [E Hi]]. apply in_seq in Hi.
+  exists i. split; [lia|now symmetry]. Qed.
+
+(* ---- the three vertical passes of vrr2_cube (_two_elec_int.py:346-399) ---- *)
+Section VrrCube.
+Variables (L : nat) (pax pay paz pqx pqy pqz twop w : F) (base : nat -> F).
+Let v := 1 / twop.
+
+Definition V3g (ax ay az m : nat) : F :=
+  Vf2 K paz (w * pqz) v w
+    (fun m2 => Vf2 K pay (w * pqy) v w (fun m1 => Vf2 K pax (w * pqx) v w base ax m1) ay m2) az m.
+
+Let v0 := mk (S L) (fun m => [base m]).
+Let X := vpass2 K L pax (w * pqx) twop w v0.
+Let v0y := mk (S L) (fun m => mk (S L) (fun ax => nth 0 (nth m (nth ax X []) []) 0)).
+Let Y := vpass2 K L pay (w * pqy) twop w v0y.
+Let v0z := mk (S L) (fun m => concat (mk (S L) (fun ay => nth m (nth ay Y []) []))).
+Let Z := vpass2 K L paz (w * pqz) twop w v0z.
+
+Lemma X_entry ax m : m + ax <= L ->
+  nth 0 (nth m (nth ax X []) []) 0 = Vf2 K pax (w * pqx) v w base ax m.
+Proof.
+  intros H. unfold X.
+  rewrite (vpass2_entry L 1 pax (w * pqx) twop w v0) by
+    (try lia; intros m' Hm'; unfold v0; rewrite nth_mk by lia; reflexivity).
+  apply (Vf2_local K). intros k Hk. unfold chan, v0. rewrite nth_mk by lia. reflexivity.
+Qed.
+
+Lemma v0y_len m : m <= L -> length (nth m v0y []) = S L.
+Proof. intros H. unfold v0y. rewrite nth_mk by lia. apply mk_length. Qed.
+
+Lemma Y_entry ay m ax : m + ay + ax <= L ->
+  nth ax (nth m (nth ay Y []) []) 0
+  = Vf2 K pay (w * pqy) v w (fun m1 => Vf2 K pax (w * pqx) v w base ax m1) ay m.
+Proof.
+  intros H. unfold Y.
+  rewrite (vpass2_entry L (S L) pay (w * pqy) twop w v0y v0y_len) by lia.
+  apply (Vf2_local K). intros k Hk. unfold chan, v0y.
+  rewrite nth_mk by lia. rewrite nth_mk by lia. apply X_entry. lia.
+Qed.
+Lemma Y_len ay m : ay <= L -> m <= L -> length (nth m (nth ay Y []) []) = S L.
+Proof. intros. unfold Y. now apply (vpass2_row_length L (S L) pay (w * pqy) twop w v0y v0y_len). Qed.
+
+Lemma v0z_rows m : m <= L ->
+  forall r, In r (mk (S L) (fun ay => nth m (nth ay Y []) [])) -> length r = S L.
+Proof. intros Hm r Hr. apply in_mk in Hr. destruct Hr as [ay [Hay ->]]. apply Y_len; lia. Qed.
+Lemma v0z_len m : m <= L -> length (nth m v0z []) = (S L * S L)%nat.
+Proof. intros H. unfold v0z. rewrite nth_mk by lia.
+  rewrite (concat_uniform_length _ (S L)) by (now apply v0z_rows). now rewrite mk_length. Qed.
+
+Lemma Z_entry az ay ax : ax + ay + az <= L ->
+  nth (ay * S L + ax) (nth 0 (nth az Z []) []) 0 = V3g ax ay az 0.
+Proof.
+  intros H. unfold Z.
+  assert (Hch : ay * S L + ax < S L * S L).
+  { apply Nat.lt_le_trans with (ay * S L + S L)%nat; [lia|].
+    replace (ay * S L + S L)%nat with (S ay * S L)%nat by (cbn [Nat.mul]; lia).
+    apply Nat.mul_le_mono_r. lia. }
+  rewrite (vpass2_entry L (S L * S L) paz (w * pqz) twop w v0z v0z_len) by lia.
+  unfold V3g. apply (Vf2_local K). intros k Hk. unfold chan, v0z.
+  rewrite nth_mk by lia.
+  rewrite (nth_concat_uniform _ (S L)) by (try apply v0z_rows; rewrite ?mk_length; lia).
+  rewrite nth_mk by lia. apply Y_entry. lia.
+Qed.
+
+(* inside |a| <= L the cube holds the three nested abstract recursions at m = 0 *)
+Theorem vrr2_cube_entry ax ay az : ax + ay + az <= L ->
+  cget K (vrr2_cube K L pax pay paz pqx pqy pqz twop w base) ax ay az = V3g ax ay az 0.
+Proof.
+  intros H. unfold vrr2_cube. cbv zeta. rewrite cget_mk3 by lia. now apply Z_entry.
+Qed.
+End VrrCube.
 
 (* index along the axis, and the line of the cube through (x, y, z) along the axis *)
 Definition idx (axis x y z : nat) : nat := match axis with O => x | S O => y | _ => z end.
